@@ -1052,7 +1052,7 @@ impl Engine for C10 {
                     let block = orders * spellings;
                     // Index-addressable block: jump straight to this worker's cases.
                     let mut c = match sink.mode {
-                        Mode::Describe(i) => {
+                        Mode::Describe(i) | Mode::Only(i) => {
                             if i >= idx && i < idx + block {
                                 i - idx
                             } else {
@@ -1089,7 +1089,7 @@ impl Engine for C10 {
                                 }
                             },
                         );
-                        if let Mode::Describe(_) = sink.mode {
+                        if sink.single().is_some() {
                             break;
                         }
                         if sink.expired() {
